@@ -294,6 +294,10 @@ func (cl *Cluster) syncVariants(r *Req, req *sarama.SyncGroupRequest) []gx.Varia
 				vs = append(vs, answer(f, sarama.ErrUnknownMemberId, nil, true))
 			case "sync-illegal-generation":
 				vs = append(vs, answer(f, sarama.ErrIllegalGeneration, nil, false))
+			case "sync-notcoord":
+				// the broker stopped being the group's coordinator (the member keeps its registration: the
+				// coordinator the member finds next has the group's state)
+				vs = append(vs, answer(f, sarama.ErrNotCoordinatorForConsumer, nil, false))
 			case "sync-drop":
 				vs = append(vs, cl.wrap(r, "SyncGroup", f, func() {
 					cl.logGroup(g, GroupReq{Kind: "SyncGroup", Conn: r.Conn.Label, MemberID: req.MemberId, Generation: req.GenerationId, Answer: f})
